@@ -7,6 +7,8 @@ import (
 	"bytes"
 	"encoding/base64"
 	"fmt"
+	"io"
+	"strconv"
 	"net"
 	"net/url"
 	"os"
@@ -37,10 +39,14 @@ type C19Case struct {
 	JSONLog    bool     `json:"json_log"`
 	// ProxyPlain: --proxy is given without userinfo; the upstream's password then comes from --credentials (second entry).
 	ProxyPlain bool `json:"proxy_plain,omitempty"`
+	// Extra: further successful exchanges of other shapes (their log lines are inside the property).
+	Extra []string `json:"extra,omitempty"`
 	// Fails: exchanges that fail at the upstream hop, made after the diagnostics of the successful phase were collected;
 	// only the error responses they produce are examined (log lines of failed exchanges are outside the property).
 	Fails []string `json:"fails,omitempty"`
 }
+
+var c19ExtraKinds = []string{"upgrade-101", "connect-tunnel", "status-204", "status-302", "status-404", "head", "post"}
 
 var c19FailKinds = []string{"connect-close", "connect-garbage", "connect-403", "connect-407", "get-close", "get-garbage", "connect-dead", "get-dead"}
 
@@ -86,6 +92,9 @@ func genC19(t *rapid.T) C19Case {
 	if c.ProxyPass == "" && len(c.CredPasses) >= 2 {
 		c.ProxyPlain = rapid.Bool().Draw(t, "proxyplain")
 	}
+	if rapid.IntRange(0, 2).Draw(t, "withextra") != 0 {
+		c.Extra = rapid.SliceOfNDistinct(rapid.SampledFrom(c19ExtraKinds), 1, 4, rapid.ID[string]).Draw(t, "extra")
+	}
 	if rapid.Bool().Draw(t, "withfails") {
 		c.Fails = rapid.SliceOfNDistinct(rapid.SampledFrom(c19FailKinds), 1, 4, rapid.ID[string]).Draw(t, "fails")
 	}
@@ -110,11 +119,40 @@ func (l *lockedBuf) String() string {
 	return l.b.String()
 }
 
+// c19Responder answers by the request path: /c19/s<code> with that status, /c19/upgrade with 101, anything else 200.
+func c19Responder(name string) Responder {
+	ok := proxyResponder(name)
+	return func(pc *PeerConn, r *RecordedReq) ([]byte, bool) {
+		t := r.Msg.Target
+		if i := strings.Index(t, "/c19/"); i >= 0 {
+			switch what := strings.SplitN(t[i+5:], "?", 2)[0]; {
+			case what == "upgrade":
+				return []byte("HTTP/1.1 101 Switching Protocols\r\nConnection: Upgrade\r\nUpgrade: c19proto\r\n\r\nhello"), true
+			case strings.HasPrefix(what, "s"):
+				if code, err := strconv.Atoi(what[1:]); err == nil {
+					extra, body := "", "body\n"
+					if code == 302 {
+						extra = "Location: http://elsewhere.test/\r\n"
+					}
+					if code == 204 || r.Msg.Method == "HEAD" {
+						body = ""
+						if code == 204 {
+							return []byte(fmt.Sprintf("HTTP/1.1 204 No Content\r\n%s\r\n", extra)), false
+						}
+					}
+					return []byte(fmt.Sprintf("HTTP/1.1 %d Scripted\r\n%sContent-Length: %d\r\n\r\n%s", code, extra, len(body), body)), false
+				}
+			}
+		}
+		return ok(pc, r)
+	}
+}
+
 // c19Upstream is the upstream proxy of the C19 laboratory: it serves everything except the hosts *.c19fail.test,
 // for which it misbehaves in the way the host name says.
 func c19Upstream() func(*PeerConn) {
 	tunnel := TunnelTo(nil)
-	ok := proxyResponder("UP")
+	ok := c19Responder("UP")
 	misbehave := func(pc *PeerConn, target string) bool {
 		switch {
 		case strings.HasPrefix(target, "close.c19fail.test"):
@@ -164,7 +202,7 @@ func getEnv19() (*c19Env, error) {
 			return
 		}
 		var err error
-		if e.origin, err = StartPeer("origin", "127.0.0.2", nil, HTTPHandler(originResponder, nil)); err != nil {
+		if e.origin, err = StartPeer("origin", "127.0.0.2", nil, HTTPHandler(c19Responder("origin"), nil)); err != nil {
 			env19Err = err
 			return
 		}
@@ -265,10 +303,13 @@ func runC19(c C19Case) (fails []vstat.Failure) {
 			add("cacert-file", DataURI(e.ca.CertPEM))
 		}
 	}
-	httpsListener := false
+	httpsListener, mitmOn := false, false
 	for _, k := range c.KeyFlags {
 		if k == "tls" {
 			httpsListener = true
+		}
+		if k == "mitm" {
+			mitmOn = true
 		}
 	}
 
@@ -397,6 +438,57 @@ func runC19(c C19Case) (fails []vstat.Failure) {
 	if c.LogHTTP != "errors" && c.ProxyPass == "" {
 		// an upstream failure (the request log of failed exchanges in 'errors' mode is outside the property)
 		exchange("502 reply", FreeAddr("127.0.0.9"), true)
+	}
+	// further successful exchanges of other shapes
+	authHdr0 := ""
+	if c.BasicAuth != "" {
+		authHdr0 = "Proxy-Authorization: Basic " + base64.StdEncoding.EncodeToString([]byte("bauser:"+c.BasicAuth)) + "\r\n"
+	}
+	for _, k := range c.Extra {
+		conn, br, err := dialProxy()
+		if err != nil {
+			continue
+		}
+		host := e.origin.Addr
+		status := 0
+		switch {
+		case k == "upgrade-101":
+			fmt.Fprintf(conn, "GET http://%s/c19/upgrade HTTP/1.1\r\nHost: %s\r\n%sConnection: Upgrade\r\nUpgrade: c19proto\r\n\r\n", host, host, authHdr0)
+			if m, err := ReadResponseHead(br, "GET"); err == nil {
+				status = m.Status
+				if m.Status == 101 {
+					buf := make([]byte, 5)
+					io.ReadFull(br, buf)
+				}
+			}
+		case k == "connect-tunnel":
+			fmt.Fprintf(conn, "CONNECT %s HTTP/1.1\r\nHost: %s\r\n%s\r\n", host, host, authHdr0)
+			if m, err := ReadResponse(br, "CONNECT"); err == nil {
+				status = m.Status
+				if m.Status == 200 && !mitmOn {
+					fmt.Fprintf(conn, "GET /c19/in-tunnel HTTP/1.1\r\nHost: %s\r\nConnection: close\r\n\r\n", host)
+					ReadResponse(br, "GET")
+				}
+			}
+		default:
+			method, path := "GET", "/c19/"+strings.Replace(k, "status-", "s", 1)
+			body := ""
+			switch k {
+			case "head":
+				method, path = "HEAD", "/c19/s200"
+			case "post":
+				method, path, body = "POST", "/c19/s200", "Content-Length: 5\r\n\r\nhello"
+			}
+			if body == "" {
+				body = "\r\n"
+			}
+			fmt.Fprintf(conn, "%s http://%s%s HTTP/1.1\r\nHost: %s\r\n%sConnection: close\r\n%s", method, host, path, host, authHdr0, body)
+			if m, err := ReadResponse(br, method); err == nil {
+				status = m.Status
+			}
+		}
+		conn.Close()
+		st.Class(fmt.Sprintf("extra-%s-%d", k, status))
 	}
 	// /configz with and without credentials
 	for _, auth := range []bool{true, false} {
@@ -570,6 +662,9 @@ func classifyC19(c C19Case) (bool, string, []string) {
 	}
 	for _, k := range c.Fails {
 		cls = append(cls, "fail-"+k)
+	}
+	for _, k := range c.Extra {
+		cls = append(cls, "extra-"+k)
 	}
 	return special || n >= 2, fmt.Sprintf("%+v", c), cls
 }
